@@ -66,7 +66,12 @@ def runLog (fs : FS) (l : Log) : Out :=
   let r := l.writes.foldl applyWrite (fs, [])
   { fs := r.1, writes := r.2, stdout := l.stdout, reads := l.reads }
 
-def joinPath (base name : Bytes) : Bytes := base ++ [47] ++ name
+/-- `PathBuf::join` (= `push`) on Unix: an absolute `name` replaces `base`; a separator is added unless
+`base` is empty or already ends in one; nothing is normalised -/
+def joinPath (base name : Bytes) : Bytes :=
+  if name.head? = some 47 then name
+  else if base = [] ∨ base.getLast? = some 47 then base ++ name
+  else base ++ [47] ++ name
 
 def endsWith (s suf : Bytes) : Bool := s.length ≥ suf.length && s.drop (s.length - suf.length) == suf
 
